@@ -22,6 +22,7 @@ from __future__ import annotations
 import io
 import json
 import os
+import zlib
 import struct
 import sys
 import traceback
@@ -594,14 +595,55 @@ def _onnx_make_tensor(rec, dname, proto, fs):
         fs.add("divergence", "spec-vs-onnx-field", "mismatch", got=got, want=want)
 
 
+KERNEL_CHUNKS = (0, 1, 3)     # TensorRepr.tla, KernelChunks: the kernel hands over at most k bytes per call (0 = all)
+
+
+class _ShortTransfers:
+    """Make the operating system's in-kernel copy transfer at most k bytes per call - a legal behaviour of
+    copy_file_range(2) that a real kernel shows for large or interrupted copies."""
+
+    def __init__(self, k: int):
+        self.k = k
+        self.calls = 0
+
+    def __enter__(self):
+        self.orig = getattr(os, "copy_file_range", None)
+        if self.k and self.orig is not None:
+            orig, k, me = self.orig, self.k, self
+
+            def short(src, dst, count, offset_src=None, offset_dst=None):
+                me.calls += 1
+                return orig(src, dst, min(count, k), offset_src, offset_dst)
+
+            os.copy_file_range = short
+        return self
+
+    def __exit__(self, *exc):
+        if self.orig is not None:
+            os.copy_file_range = self.orig
+        return False
+
+
 def _write(rec, t, workdir, fs):
+    # representations that copy inside the kernel are written once per transfer granularity, the others once
+    # with a granularity derived from the state (deterministic)
+    if rec["base"]["kind"] == "external" and rec["dk"] in ("w0", "wk", "rpk", "ab"):
+        ks = KERNEL_CHUNKS
+    else:
+        ks = (KERNEL_CHUNKS[zlib.crc32(json.dumps([rec["dk"], rec["base"]], sort_keys=True, default=str).encode()) % len(KERNEL_CHUNKS)],)
+    for kchunk in ks:
+        _write_k(rec, t, workdir, fs, kchunk)
+
+
+def _write_k(rec, t, workdir, fs, kchunk):
     dk = rec["dk"]
     want_content, want_pos = _b(rec["dst"]["content"]), rec["dst"]["pos"]
     f, path = open_dest(dk, rec["dinit"], workdir)
     try:
         try:
-            for _ in range(rec["w"]):
-                t.tofile(f)
+            with _ShortTransfers(kchunk):
+                for _ in range(rec["w"]):
+                    t.tofile(f)
             pos = f.tell()
         except Exception as e:  # noqa: BLE001
             fs.add("violation", f"tofile-{dk}", _exc_name(e), exc=repr(e))
@@ -612,10 +654,11 @@ def _write(rec, t, workdir, fs):
             f.close()
             with open(path, "rb") as g:
                 content = g.read()
+        kk = f"~k{kchunk}" if kchunk else ""
         if content != want_content:
-            fs.add("violation", f"tofile-{dk}", "mismatch", got=content, want=want_content)
+            fs.add("violation", f"tofile-{dk}{kk}", "mismatch", got=content, want=want_content)
         if pos != want_pos:
-            fs.add("violation", f"tofile-pos-{dk}", "mismatch", got=pos, want=want_pos)
+            fs.add("violation", f"tofile-pos-{dk}{kk}", "mismatch", got=pos, want=want_pos)
     finally:
         try:
             f.close()
